@@ -294,6 +294,12 @@ func rulesC06(w *World, o *Out) {
 					o.Note("C06.R3", key+"|dormant", pos, "changes a signed field without clearing the signatures, but is unreachable from every runtime entry point; becomes a violation when wired in")
 					continue
 				}
+				if field == "GasEstimate" {
+					// electing an estimate changes the bytes to sign: the writer itself must drop the signatures
+					// collected over the old bytes (the replacement rule below relies on exactly that)
+					o.Fail("C06.R3", key, pos, "sets the elected gas estimate of a queued message (which changes its bytes to sign) without clearing the signatures collected so far", w.Path(runtime, f)...)
+					continue
+				}
 				// (b) replacement path: the store is conditioned on a caller-supplied id; every caller that supplies one has elected the estimate first
 				ok, why := replaceAfterElection(w, fl, f)
 				o.Check("C06.R3", key+"|only after the election cleared the signatures", ok, pos, why, w.Path(runtime, f)...)
@@ -375,7 +381,9 @@ func replaceAfterElection(w *World, fl *Flow, put *ssa.Function) (bool, string) 
 			if len(puts) == 0 {
 				return false, "options with MsgIDToReplace built in " + w.FuncKey(g) + " but no Put call found there"
 			}
-			isSet := func(c Callee) bool { return c.Name == "SetElectedGasEstimate" && (c.Iface || c.Recv == "Queue" || c.Recv == "BatchQueue") }
+			isSet := func(c Callee) bool {
+				return c.Name == "SetElectedGasEstimate" && (c.Iface || c.Recv == "Queue" || c.Recv == "BatchQueue")
+			}
 			sets := FindCalls(g, false, isSet)
 			okHere := len(sets) > 0
 			for _, p := range puts {
